@@ -34,6 +34,13 @@ G = 'pcbasic/basic/display/graphics.py'
 FB = 'pcbasic/basic/display/framebuffer.py'
 
 
+def _ancestors(node, stop):
+    p = getattr(node, '_parent', None)
+    while p is not None and p is not stop:
+        yield p
+        p = getattr(p, '_parent', None)
+
+
 def check(ctx, rep):
     from . import c30 as _c30, _share as _sh
     _sh.share(ctx, rep, _c30, ('clip.range-clamped',), 'a filled box, GET and PUT address their rectangle through the viewport slice: the exclusive stop is clamped to max+1, so the last column and row are part of it')
@@ -87,6 +94,30 @@ def check(ctx, rep):
     rep.ob('boxfill.one-slice', 'LINE ,BF is one slice store of the closed rectangle', len(st) == 1 and norm(st[0].targets[0]) == 'self.graph_view[y0:y1 + 1, x0:x1 + 1]', '', ctx.where(bf))
     sw = sorted(norm(n.test) for n in own_nodes(bf) if isinstance(n, ast.If))
     rep.ob('boxfill.ordered-corners', 'corners are ordered first', sw == ['x1 < x0', 'y1 < y0'], repr(sw), ctx.where(bf))
+    # each axis is ordered whatever the other axis looks like: a swap nested under the other test, or one that sits
+    # behind the store, leaves an empty slice for one of the four ways of naming the two corners
+    for ax in ('x', 'y'):
+        lo, hi = ax + '0', ax + '1'
+        ifs = [n for n in own_nodes(bf) if isinstance(n, ast.If) and norm(n.test) in ('%s < %s' % (hi, lo), '%s > %s' % (lo, hi))]
+        outer = [short(p_, 30) for i in ifs for p_ in _ancestors(i, bf) if isinstance(p_, (ast.If, ast.For, ast.While, ast.Try, ast.ExceptHandler))]
+        ok = len(ifs) == 1 and not outer and [norm(b) for b in ifs[0].body][:1] in (['%s, %s = (%s, %s)' % (lo, hi, hi, lo)], ['%s, %s = (%s, %s)' % (hi, lo, lo, hi)]) \
+            and len(st) == 1 and ifs[0].lineno < st[0].lineno
+        rep.ob('boxfill.each-axis-ordered-unconditionally', '_draw_box_filled: %s and %s are put in order on every path to the store' % (lo, hi), ok,
+               'conditions on the swap: %s' % outer, ctx.where(ifs[0] if ifs else bf))
+    # LINE (x0,y0)-STEP(dx,dy): the second pair is relative to the first one, which _get_window_physical reads from
+    # _last_point -- the first point has to be stored there before the second pair is resolved
+    ln0 = ctx.fn(G + ':Graphics.line_')
+    gwp = ctx.fn(G + ':Graphics._get_window_physical')
+    reads_last = any(isinstance(n, ast.Attribute) and norm(n) == 'self._last_point' and isinstance(n.ctx, ast.Load) for n in own_nodes(gwp))
+    rep.ob('line.step-relative-to-first-point', '_get_window_physical resolves STEP against self._last_point', reads_last, '', ctx.where(gwp))
+    second = [c for c in own_nodes(ln0) if isinstance(c, ast.Call) and norm(c.func) == 'self._get_window_physical' and norm(c.args[0]) == '*coord1']
+    flq = ctx.flow(ln0)
+    sets = [a for a in own_nodes(ln0) if isinstance(a, ast.Assign) and norm(a.targets[0]) == 'self._last_point' and norm(a.value) in ('(x0, y0)',)]
+    rep.floor('line.step-relative-to-first-point', len(second), 1, 'resolutions of the second coordinate pair')
+    for c in second:
+        rep.ob('line.step-relative-to-first-point', 'line_: the first point is stored in _last_point before %s' % short(c, 40),
+               any(a.lineno < c.lineno and set((f.text, f.pol) for f in flq.facts(a)) <= set((f.text, f.pol) for f in flq.facts(c)) for a in sets),
+               'STEP on the second pair is resolved against the graphics cursor from before the statement, not against the first point', ctx.where(c))
     # line_ dispatch
     ln = ctx.fn(G + ':Graphics.line_')
     fl = ctx.flow(ln)
@@ -211,8 +242,26 @@ def _fold_width(fn):
     return True
 
 
+def _nest_swap(fn):
+    ifs = [n for n in fn.body if isinstance(n, ast.If)]
+    fn.body.remove(ifs[1])
+    ifs[0].body.append(ifs[1])
+    return True
+
+
+def _reorder_swaps(fn):
+    ifs = [n for n in fn.body if isinstance(n, ast.If)]
+    i, j = fn.body.index(ifs[0]), fn.body.index(ifs[1])
+    fn.body[i], fn.body[j] = fn.body[j], fn.body[i]
+    return True
+
+
 def variants(ctx):
     return _variants0(ctx) + [
+        mu.Variant('box-x-swap-under-y-swap', 'break', G, lambda tree: _nest_swap(mu.find_def(tree, 'Graphics._draw_box_filled')), expect='boxfill.each-axis-ordered-unconditionally'),
+        mu.Variant('box-swaps-in-other-order', 'neutral', G, lambda tree: _reorder_swaps(mu.find_def(tree, 'Graphics._draw_box_filled'))),
+        mu.Variant('line-first-point-not-stored', 'break', G,
+                   lambda tree: mu.remove_stmt(mu.find_def(tree, 'Graphics.line_'), mu.text_is('self._last_point = (x0, y0)')), expect='line.step-relative-to-first-point'),
         mu.Variant('circle-attribute-zero-treated-as-omitted', 'break', 'pcbasic/basic/display/graphics.py',
                    lambda tree: (lambda fn: mu.replace_expr(fn, mu.text_is('attr_index is None'), 'not attr_index'))(mu.find_def(tree, 'Graphics.circle_')), expect='arguments.zero-is-not-omitted'),
     ]
